@@ -221,6 +221,15 @@ def check(run):
                               qgen=lambda r: world.rand_span_query(r, r.randrange(1, 4)))
     rejects = qobs.judge(run, cases, name="QueryCheck-spans")
     report(run, "C01", cases, meta, rejects, "c01-spans")
+    # nested (parent / child) queries
+    # (Query.docs() evaluates over the whole index at once, where "the parent before a document" can lie in
+    # another segment; documents without a parent in their own segment only exist in generated data, so
+    # that path is left out rather than given a meaning)
+    cases, meta = build_cases(run, rng, 8 if quick else 80, 20 if quick else 30, ndocs=(4, 10),
+                              paths=tuple(x for x in PATHS if x != "query.docs"),
+                              qgen=lambda r: world.rand_nested_query(r))
+    rejects = qobs.judge(run, cases, name="QueryCheck-nested")
+    report(run, "C01", cases, meta, rejects, "c01-nested")
     cases, meta = big_cases(run, rng, 2 if quick else 12)
     rejects = qobs.judge(run, cases, name="QueryCheck-large", chunk=2)
     report(run, "C01", cases, meta, rejects, "c01-large")
